@@ -46,9 +46,25 @@ type c19Case struct {
 	Method uint16 `json:"method"`
 	Class  uint8  `json:"class"`
 	V      uint16 `json:"v"`
+	// Globals: run the case with the exported variables BindingRequest/BindingSuccess/BindingError reassigned
+	Globals bool `json:"globals,omitempty"`
 }
 
 func c19Check(k c19Case) (string, string) {
+	if k.Globals {
+		// the codec is a pure function of its argument: the exported, assignable package variables are not part of it
+		r, s, e := stun.BindingRequest, stun.BindingSuccess, stun.BindingError
+		stun.BindingRequest = stun.NewType(stun.Method(0xABC), stun.ClassIndication)
+		stun.BindingSuccess = stun.NewType(stun.MethodAllocate, stun.ClassRequest)
+		stun.BindingError = stun.NewType(stun.Method(0), stun.ClassSuccessResponse)
+		defer func() { stun.BindingRequest, stun.BindingSuccess, stun.BindingError = r, s, e }()
+		k.Globals = false
+		key, d := c19Check(k)
+		if key != "" {
+			return key + "/after-reassigning-exported-type-variables", d
+		}
+		return "", ""
+	}
 	switch k.Kind {
 	case "enc":
 		t := stun.NewType(stun.Method(k.Method), stun.MessageClass(k.Class))
@@ -71,6 +87,17 @@ func c19Check(k c19Case) (string, string) {
 		m.SetType(t)
 		if w := uint16(m.Raw[0])<<8 | uint16(m.Raw[1]); w != want {
 			return "enc-wire", fmt.Sprintf("SetType(%v) wrote %#04x want %#04x", t, w, want)
+		}
+		// WriteHeader renders the type into its two bytes whatever the other fields hold (Length is a uint32
+		// that a reused Message may carry over from a larger payload)
+		for _, ln := range []uint32{0, 8, 0xFFFC, 0x10000 | uint32(^want)<<16, 0xFFFF0000} {
+			h := new(stun.Message)
+			h.Type, h.Length = t, ln
+			h.TransactionID = [12]byte{0xFF, 0xFF, 0xFF, 0xFF, 0xFF, 0xFF, 0xFF, 0xFF, 0xFF, 0xFF, 0xFF, 0xFF}
+			h.WriteHeader()
+			if w := uint16(h.Raw[0])<<8 | uint16(h.Raw[1]); w != want {
+				return "enc-wire-writeheader", fmt.Sprintf("WriteHeader with Type %v and Length %#x wrote type word %#04x want %#04x", t, ln, w, want)
+			}
 		}
 	case "dec":
 		var t stun.MessageType
@@ -126,6 +153,33 @@ func init() {
 					if method == 0x123 && class == 2 {
 						c.Sample(map[string]interface{}{"method": method, "class": class, "value": refTypeEncode(uint16(method), uint8(class))})
 					}
+				}
+			}
+			// the whole domain again with the exported type variables reassigned
+			for method := 0; method < 4096; method++ {
+				for class := 0; class < 4; class++ {
+					i++
+					if !c.Mine(i) {
+						continue
+					}
+					c.Eval(1)
+					c.Outcome("enc/globals-reassigned")
+					k := c19Case{Kind: "enc", Method: uint16(method), Class: uint8(class), Globals: true}
+					if key, d := c19Check(k); key != "" {
+						c.Violation(key, d, k)
+					}
+				}
+			}
+			for v := 0; v < 65536; v++ {
+				i++
+				if !c.Mine(i) {
+					continue
+				}
+				c.Eval(1)
+				c.Outcome("dec/globals-reassigned")
+				k := c19Case{Kind: "dec", V: uint16(v), Globals: true}
+				if key, d := c19Check(k); key != "" {
+					c.Violation(key, d, k)
 				}
 			}
 			for v := 0; v < 65536; v++ {
